@@ -2,6 +2,7 @@ import Rio.Model.Pack
 import Rio.Proofs.DevModes
 import Rio.Proofs.PathTheory
 import Rio.Generated.Facts
+import Rio.Proofs.ZipHdr
 /-!
 # C02 — Pack then unpack reproduces the fileset exactly
 
@@ -120,5 +121,11 @@ theorem C02_dev_tie :
 
 /-- the layout matters beyond 8 bits (a test): minor 300 / major 259 -/
 example : devSplit (devJoin 259 70000) = (259, 70000) ∧ devJoin 136 300 = 0x10882c := by decide
+
+/-- **uid and gid survive the zip header**, all 32 bits of each: what `MetadataToZipHdr` writes into the extra field
+    (a Unix2 block when both fit 16 bits, then a Unix3 block) is read back by `zipFileOwnership` as the same pair. -/
+theorem C02_zip_owner_roundtrip (uid gid : Nat) (hu : uid < 2 ^ 32) (hg : gid < 2 ^ 32) :
+    zipOwnership (ownerExtra uid gid) = .ok uid gid :=
+  zipOwnership_written uid gid hu hg
 
 end Rio
